@@ -43,6 +43,10 @@ EDITS = {
         ("st19", ST + "tree_diff.rs", "child_patches_map.push(((old_idx, new_idx), patches, score));", "child_patches_map.push(((new_idx, old_idx), patches, score));", "verus", "state_tree"),
     ],
     "C05": [
+        ("cs01", "crates/lib/mimium-lang/src/runtime/wasm.rs", "        cls_state.pos = 0;\n    }\n    state.state_stack.pop();", "        cls_state.pos = 0;\n    }", "verus", "wasm_state"),
+        ("cs02", "crates/lib/mimium-lang/src/runtime/wasm.rs", "        .or_insert_with(|| StateStorage::with_size(state_size as usize));", "        .or_insert_with(|| StateStorage::with_size(1));", "verus", "wasm_state"),
+        ("cs03", "crates/lib/mimium-lang/src/runtime/wasm.rs", "    state.state_stack.push(closure_addr);\n    // Lazily allocate", "    // Lazily allocate", "verus", "wasm_state"),
+        ("cs04", "crates/lib/mimium-lang/src/runtime/wasm.rs", "            pos: 0,\n            data: vec![0u64; size],", "            pos: 0,\n            data: vec![0u64; size + 1],", "verus", "wasm_state"),
         ("tl01", "crates/lib/mimium-lang/src/compiler/mirgen.rs", "                    (r, t_ret, [states, s].concat())", "                    (r, t_ret, s)", "verus", "mirgen_state"),
         ("tl02", "crates/lib/mimium-lang/src/compiler/mirgen.rs", "                (result, ty, [states, states2].concat())", "                (result, ty, states)", "verus", "mirgen_state"),
         ("tl03", "crates/lib/mimium-lang/src/compiler/mirgen.rs", "                self.eval_assign(*assignee, src, ty);\n                (Arc::new(Value::None), unit!(), states)", "                self.eval_assign(*assignee, src, ty);\n                (Arc::new(Value::None), unit!(), vec![])", "verus", "mirgen_state"),
